@@ -158,6 +158,13 @@ var nodeCfgs = []nodeCfg{
 			Startup: []corev1.Taint{{Key: "boot", Value: "x", Effect: corev1.TaintEffectNoSchedule}},
 			NodeOnly: []corev1.Taint{{Key: "node.kubernetes.io/not-ready", Effect: corev1.TaintEffectNoSchedule}}}}, nil
 	}},
+	// registered, not yet initialized, and CORDONED after registration: a NoSchedule taint that exists on the Node object
+	// only and is neither a startup nor a known ephemeral taint must repel pods that do not tolerate it
+	{"registered-uninit-cordoned", func(cat []world.ITSpec, pool string) ([]world.NodeSpec, []*corev1.Pod) {
+		t := pickType(cat, "m")
+		return []world.NodeSpec{{Name: "n1", Pool: pool, Type: t, Offer: pickOffer(t, "a"), Stage: "registered",
+			NodeOnly: []corev1.Taint{{Key: "node.kubernetes.io/not-ready", Effect: corev1.TaintEffectNoSchedule}, {Key: corev1.TaintNodeUnschedulable, Effect: corev1.TaintEffectNoSchedule}}}}, nil
+	}},
 	{"deleting-l+unmanaged-s", func(cat []world.ITSpec, pool string) ([]world.NodeSpec, []*corev1.Pod) {
 		l, s := pickType(cat, "l"), pickType(cat, "s")
 		return []world.NodeSpec{{Name: "n1", Pool: pool, Type: l, Offer: pickOffer(l, "a"), Deleting: true}, {Name: "u1", Pool: "", Type: s, Offer: pickOffer(s, "b")}},
